@@ -6,6 +6,8 @@
     run(kind, cases)                   kinds TEXT / RT / VALUE / NVALUES, cases are Python lists (see main.rs)
     SPECS                              the fixed specifications: name, enhanced A2ML text (read from specs.rs), type tree
     conforming_case(spec, rng)         random conforming IF_DATA instance (case of kind RT, meta 'conf:...')
+    directed_cases(spec, rng)          conforming instances that contain a given tagged member (every member of the
+                                       specification in turn) with the integers / enums at the bounds of that member's types
     mismatch_case(spec, rng, family)   IF_DATA parsed under a mutated in-file definition (meta 'mis:<family>')
     MISMATCH_FAMILIES
     check_c19(kind, case, answer)      oracle: None | description ('<CATEGORY>: text')
@@ -621,6 +623,46 @@ def conforming_case(spec, rng, own_text=None, typed=False):
     leaves = expected_leaves(top, inst, [])
     meta = 'conf:' + ('typedshape' if typed else 'inline' if own_text else 'xtext')
     return [spec, a2ml, layout(toks, rng), meta, _enc_leaves(leaves)]
+
+
+def extreme_instance(t, inst, hi):
+    """the same instance with every integer leaf at the lower (hi=False) / upper bound of ITS type and every enum leaf
+    at the first / last item of ITS enum; structure, strings, floats and the hex flag of the integers are kept"""
+    k = t[0]
+    if k == 'scalar':
+        if t[1] not in INT_TYPES:
+            return inst
+        bits, signed = INT_TYPES[t[1]]
+        lo, up = (-(1 << (bits - 1)), (1 << (bits - 1)) - 1) if signed else (0, (1 << bits) - 1)
+        return ('int', up if hi else lo, inst[2])
+    if k == 'enum':
+        return ('enum', t[1][-1 if hi else 0][0])
+    if k in ('arr', 'seq'):
+        return (inst[0], [extreme_instance(t[1], x, hi) for x in inst[1]])
+    if k == 'struct':
+        return ('struct', [extreme_instance(m, x, hi) for m, x in zip(t[1], inst[1])])
+    if k in ('ts', 'tu'):
+        return (inst[0], [(i, None if x is None else extreme_instance(t[1][i][1], x, hi)) for i, x in inst[1]])
+    return inst
+
+
+def directed_cases(spec, rng):
+    """conforming RT cases for every tagged member of the specification (any depth, in walk order): the instance contains
+    that member, once with all integers / enums at the lower bound / first item of their own types and once at the upper
+    bound / last item (in-file definition X_TEXT), the latter also under the anonymous inlined rendering.  A tag that
+    the specification uses below several parents is thereby exercised at every occurrence with values of the types of
+    that occurrence (meta 'conf:directed:<path of the member>:<lo|hi>:<xtext|inline>')."""
+    top = SPECS[spec]['top']
+    out = []
+    for p, i in _members(top):
+        for hi, own_text in ((False, False), (True, False), (True, True)):
+            inst = extreme_instance(top, gen_instance(top, rng, p + (i,)), hi)
+            toks = []
+            render_instance(top, inst, toks)
+            meta = 'conf:directed:%s:%s:%s' % ('.'.join(map(str, p + (i,))), 'hi' if hi else 'lo', 'inline' if own_text else 'xtext')
+            out.append([spec, render_a2ml(top) if own_text else '', layout(toks, rng), meta,
+                        _enc_leaves(expected_leaves(top, inst, []))])
+    return out
 
 
 # ----------------------------------------------------------------------------------------------- mismatching definitions
